@@ -313,6 +313,27 @@ def pre_post_symmetry(ctx, repo):
         # the final pass of this variable must be the last one for it
         last = [k for k in order if k[0] == var][-1]
         ctx.ob("MRG-sym", fpost.where, f"last {var} pass is the index pass ({last[1]})", last[1] == "NonhashableDict")
+    # guard agreement (contradiction rule): a presence test one side makes before dereferencing must be made by the other
+    def guards(f, recv, meth):
+        out = []
+        for n in ast.walk(f.node):
+            if isinstance(n, ast.Call) and isinstance(n.func, ast.Attribute) and n.func.attr == meth and norm(n.func.value).endswith("." + recv):
+                cs = set()
+                for t, pol in guard_conditions(n):
+                    if not pol:
+                        continue
+                    for c in (t.values if isinstance(t, ast.BoolOp) and isinstance(t.op, ast.And) else [t]):
+                        cs.add(norm(c))
+                out.append(cs)
+        return out
+
+    for r, me in sorted(pre_set):
+        gp = guards(fpre, r, me)
+        gq = guards(fpost, r, me)
+        need = set.intersection(*gp) if gp else set()
+        for cs in gq:
+            missing = sorted(need - cs)
+            ctx.ob("MRG-sym", fpost.where, f"{r}.{me} is applied under the presence tests pre-merge makes ({sorted(need)})", not missing, "" if not missing else f"post-merge dereferences what pre-merge tests first: missing {missing} (None table -> AttributeError)")
     for key in order:
         var, ctor = key
         want = {(r, me) for v, _, r, me in pre if v == var}
@@ -335,7 +356,7 @@ def glyph_names(ctx, repo):
     ctx.consult(CMAP, INIT)
     f = m.func("computeMegaGlyphOrder")
     fn = f.node
-    dicts = [n.targets[0].id for n in walk_no_nested(fn) if isinstance(n, ast.Assign) and isinstance(n.targets[0], ast.Name) and isinstance(n.value, ast.Dict) and not n.value.keys]
+    dicts = [n.targets[0].id for n in walk_no_nested(fn) if isinstance(n, ast.Assign) and isinstance(n.targets[0], ast.Name) and (isinstance(n.value, ast.Dict) and not n.value.keys or isinstance(n.value, ast.Call) and norm(n.value.func) in ("dict", "OrderedDict", "collections.OrderedDict") and not n.value.args and not n.value.keywords)]
     final = [n for n in walk_no_nested(fn) if isinstance(n, ast.Assign) and any(norm(t).endswith(".glyphOrder") for t in n.targets)]
     D = None
     if len(final) == 1:
@@ -487,4 +508,25 @@ def unions(ctx, repo):
         ctx.ob("MRG-union", f.where, f"{fname} folds every input with .{meth}", ok, "" if ok else "an input's entries are dropped or the fold stops early")
 
 
-ALL = [map_exhaustive, pre_post_symmetry, glyph_names, cmap_first_wins, unions]
+def langsys_fallback(ctx, repo):
+    ctx.rule("MRG-lang", "mergeScripts: for every language tag of the merged script each input script contributes its effective language system -- its explicit LangSysRecord, else its DefaultLangSys (what a shaper falls back to); folding only explicit records drops the other inputs' features for that language", floor=1)
+    m = repo.mod(LAYOUT)
+    f = m.func("mergeScripts")
+    coll = None
+    for n in ast.walk(f.node):
+        if isinstance(n, ast.Call) and isinstance(n.func, ast.Attribute) and n.func.attr == "append" and isinstance(n.func.value, ast.Subscript) and n.args and norm(n.args[0]).endswith(".LangSys"):
+            coll = norm(n.func.value.value)
+    if coll is None:
+        raise AnalysisError("mergeScripts: collection of explicit LangSys records not found")
+    fb = False
+    for n in ast.walk(f.node):
+        if isinstance(n, ast.Call) and isinstance(n.func, ast.Attribute) and n.func.attr in ("append", "extend", "setdefault", "insert"):
+            tgt = norm(n.func.value)
+            if tgt.startswith(coll) and any("DefaultLangSys" in norm(a) for a in ast.walk(n) if isinstance(a, ast.Attribute)):
+                fb = True
+        if isinstance(n, ast.Call) and isinstance(n.func, ast.Attribute) and n.func.attr == "get" and len(n.args) == 2 and "DefaultLangSys" in norm(n.args[1]):
+            fb = True
+    ctx.ob("MRG-lang", f.where, f"{coll}[tag] also receives the DefaultLangSys of inputs that do not declare the tag", fb, "" if fb else "an input that relies on the default language system loses its features under a language tag another input declares")
+
+
+ALL = [langsys_fallback, map_exhaustive, pre_post_symmetry, glyph_names, cmap_first_wins, unions]
